@@ -60,12 +60,15 @@ pub fn run(ctx: &Ctx) -> i32 {
         let dst = format!("{name}.lc3");
         // the destination already exists: every third program compiles over a longer object file,
         // every third over a shorter one
-        match i % 3 {
+        match i % 4 {
             0 => {
                 lace.write(&dst, &vec![0x5A; 2 * (img.words.len() + 1) + 14]);
             }
             1 => {
                 lace.write(&dst, &[0x30]);
+            }
+            2 => {
+                lace.write(&dst, &vec![0x5A; 2 * (img.words.len() + 1)]);
             }
             _ => {}
         }
@@ -218,7 +221,7 @@ pub fn run(ctx: &Ctx) -> i32 {
         ctx,
         acc,
         Level { category: "model_checking", bfs: None },
-        "enumeration against the real binary: (1) 26 accepted programs (10 seeds covering every statement kind, 13 origins from x0000 to xFFFF, data words of every byte class, no HALT, error exit): `lace compile` output (onto a fresh, a longer and a shorter pre-existing destination in turn) must be byte-for-byte 2(n+1) big-endian bytes of the reference image, and `lace run` of the .lc3 and of the same bytes as .obj must give the same exit status and stdout as `lace run` of the source; (2) the loader on every length 0..6 x 4 fill bytes, and for first word in {x0000,x3000,xFDFF,xFE00,xFFFD,xFFFE,xFFFF} images ending two below, one below, exactly at, one above and two above the top of memory, each with and without a trailing odd byte, under both extensions: accepted iff even, non-empty and origin+n+1 <= x10000, rejected with a non-zero status that is not a crash, accepted images exit as the machine model says. non-trivial = agreeing cases",
+        "enumeration against the real binary: (1) 26 accepted programs (10 seeds covering every statement kind, 13 origins from x0000 to xFFFF, data words of every byte class, no HALT, error exit): `lace compile` output (onto a fresh, a longer, a shorter and an equally long pre-existing destination in turn) must be byte-for-byte 2(n+1) big-endian bytes of the reference image, and `lace run` of the .lc3 and of the same bytes as .obj must give the same exit status and stdout as `lace run` of the source; (2) the loader on every length 0..6 x 4 fill bytes, and for first word in {x0000,x3000,xFDFF,xFE00,xFFFD,xFFFE,xFFFF} images ending two below, one below, exactly at, one above and two above the top of memory, each with and without a trailing odd byte, under both extensions: accepted iff even, non-empty and origin+n+1 <= x10000, rejected with a non-zero status that is not a crash, accepted images exit as the machine model says. non-trivial = agreeing cases",
         true,
         &["round-trip-agreed", "unloadable-rejected", "loadable-accepted"],
         &["reference image = refmodel::asm; reference run = refmodel::vm"],
